@@ -26,7 +26,9 @@ LFF == Loc(M0, 7, <<Ln(F, 10, 0), Ln(G, 20, 0)>>, FALSE)     \* f:10 inlined her
 LF2 == Loc(M0, 9, <<Ln(F2, 10, 0)>>, FALSE)
 LU  == Loc(M0, 8, <<>>, FALSE)
 L3  == Loc(M0, 10, <<Ln(G, 22, 0), Ln(F, 12, 0), Ln(F2, 13, 0)>>, FALSE)   \* an inline chain of three: the middle frame is inlined as well
-StackShapes == { <<>>, <<LF>>, <<LG, LF>>, <<LF, LG, LF>>, <<LG, LF, LG, LF>>, <<LF, LF, LG>>, <<LGF, LG>>, <<LF, LFF>>, <<LFF, LF>>, <<LU>>, <<LF, LU, LG>>, <<LF2, LF>>, <<LF, LG, LG, LF, LG>>, <<L3>>, <<LF, L3>> }
+FR  == Fn("root", "root", "", 0)                           \* a real function that is called like the synthetic root, without file or line
+LR  == Loc(M0, 11, <<Ln(FR, 0, 0)>>, FALSE)
+StackShapes == { <<LR>>, <<LF, LR, LG>>, <<>>, <<LF>>, <<LG, LF>>, <<LF, LG, LF>>, <<LG, LF, LG, LF>>, <<LF, LF, LG>>, <<LGF, LG>>, <<LF, LFF>>, <<LFF, LF>>, <<LU>>, <<LF, LU, LG>>, <<LF2, LF>>, <<LF, LG, LG, LF, LG>>, <<L3>>, <<LF, L3>> }
 Grans == IF Tier = "thorough" THEN {"functions", "filefunctions", "files", "lines", "addresses"} ELSE {"functions", "lines", "files"}
 Cfg0(g, ni) == [gran |-> g, noinl |-> ni, si |-> 2, mean |-> FALSE, troot |-> <<>>, tleaf |-> <<>>]
 Cases == IF Tier = "guard"
